@@ -11,6 +11,7 @@ import (
 	"math"
 	"math/big"
 	"math/rand"
+	"os"
 	"sort"
 	"strings"
 	"time"
@@ -245,7 +246,9 @@ type planRun struct {
 	panicked interface{}
 }
 
-const planGuard = 30 * time.Second
+// generous: the guard only has to end a run that would never return (an infinite loop is
+// detected much earlier by the call counter of planCall); the machine may be heavily loaded
+const planGuard = 300 * time.Second
 
 // planCall runs mergeplan.Plan under a time guard.  With record, the ScoreSegments and
 // CalcBudget fields wrap the package defaults and record every call; a run that asks for more
@@ -393,7 +396,19 @@ func planMetaOpts(o *mergeplan.Options) map[string]interface{} {
 }
 
 func planInput(segs []*planSeg, o *mergeplan.Options) map[string]interface{} {
-	return map[string]interface{}{"options": planMetaOpts(o), "segments_id_full_live": planMetaSegs(segs)}
+	// long lists are cut in the report (the key and reason must stay readable); the full list is
+	// regenerated by the same seed
+	show := segs
+	note := ""
+	if len(show) > 48 {
+		show = show[:48]
+		note = fmt.Sprintf("first 48 of %d segments; rerun the engine with the same -seed for the full list", len(segs))
+	}
+	m := map[string]interface{}{"options": planMetaOpts(o), "segments_id_full_live": planMetaSegs(show)}
+	if note != "" {
+		m["note"] = note
+	}
+	return m
 }
 
 // planOracle evaluates the well-formedness clauses of the property on one returned plan
@@ -535,6 +550,18 @@ func planApply(st *planState, p *mergeplan.MergePlan) {
 	}
 }
 
+func planAllNoop(p *mergeplan.MergePlan) bool {
+	if p == nil || len(p.Tasks) == 0 {
+		return false
+	}
+	for _, t := range p.Tasks {
+		if !planIsNoop(t) {
+			return false
+		}
+	}
+	return true
+}
+
 func planIsNoop(t *mergeplan.MergeTask) bool {
 	return len(t.Segments) == 1 && t.Segments[0].FullSize() == t.Segments[0].LiveSize() && t.Segments[0].LiveSize() != 0
 }
@@ -667,6 +694,11 @@ func planHistory(w *cq.Writer, rng *rand.Rand, o *mergeplan.Options, batches int
 		}
 		if rng.Intn(2) == 0 { // the merger gets a turn
 			r := planChecked(w, rng, st.segs, o, false)
+			if planAllNoop(r.plan) {
+				// a fixpoint of no-op tasks: nothing will ever be merged again, the list would
+				// only grow (and every further Plan call costs n^2 scores); settle now
+				break
+			}
 			planApply(st, r.plan)
 		}
 		if len(st.segs) > maxDuring {
@@ -706,6 +738,16 @@ func planHistory(w *cq.Writer, rng *rand.Rand, o *mergeplan.Options, batches int
 }
 
 // ---------------------------------------------------------------- engine
+
+// planPhase prints the time spent since the previous call when PLAN_TRACE is set.
+var planPhaseStart = time.Now()
+
+func planPhase(name string) {
+	if os.Getenv("PLAN_TRACE") != "" {
+		fmt.Fprintf(os.Stderr, "plan: %-28s %v\n", name, time.Since(planPhaseStart).Round(time.Millisecond))
+	}
+	planPhaseStart = time.Now()
+}
 
 func runPlan(o Opts) error {
 	rng := rand.New(rand.NewSource(o.Seed))
@@ -785,8 +827,9 @@ func runPlan(o Opts) error {
 		}
 	}
 
+	planPhase("budget cases")
 	// ---- CPlanT: recorded default score (table), small and medium lists
-	nT := 420 * scale
+	nT := 260 * scale
 	for i := 0; i < nT; i++ {
 		mode := 0
 		if i%7 == 6 {
@@ -809,8 +852,9 @@ func runPlan(o Opts) error {
 			planTableCase(w, rng, planShuffled(rng, segs), &opt, "shuffled")
 		}
 	}
+	planPhase("table cases")
 	// o == nil: the defaults; the table comes from a hooked run with a copy of the defaults
-	for i := 0; i < 40*scale; i++ {
+	for i := 0; i < 30*scale; i++ {
 		def := mergeplan.DefaultMergePlanOptions
 		n := rng.Intn(45)
 		segs := planGenSegs(rng, n, &def, []int{1, 5, 1, 2, 6}[rng.Intn(5)], false)
@@ -834,9 +878,10 @@ func runPlan(o Opts) error {
 		w.Count(fmt.Sprintf("tasks:%s", planBucket(planNumTasks(r.plan))), 1)
 	}
 
+	planPhase("nil-options cases")
 	// ---- CPlanS: synthetic integer score, larger lists
 	primes := []uint{1, 2, 3, 7, 16, 30}
-	nS := 120 * scale
+	nS := 80 * scale
 	nBig := 0
 	for i := 0; i < nS; i++ {
 		if i%40 == 0 {
@@ -880,6 +925,7 @@ func runPlan(o Opts) error {
 		segs := planGenSegs(rng, n, &opt, style, mode == 1)
 		planSynCase(w, rng, segs, &opt, primes[rng.Intn(len(primes))], fmt.Sprintf("style%d", style))
 	}
+	planPhase("synthetic cases")
 	// ---- simulated histories: arrivals, deletions, plan executions, then settle
 	nH := 24 * scale
 	for i := 0; i < nH; i++ {
@@ -898,6 +944,7 @@ func runPlan(o Opts) error {
 		}
 		planHistory(w, rng, &opt, batches, tag)
 	}
+	planPhase("histories")
 	// geometric size progressions with small option values: where a single segment is the
 	// best roster (candidate no-op plans)
 	for i := 0; i < 40*scale; i++ {
@@ -931,7 +978,9 @@ func runPlan(o Opts) error {
 		}
 	}
 
+	planPhase("geometric histories")
 	w.Close()
+	planPhase("writing shards")
 	return nil
 }
 
